@@ -381,22 +381,54 @@ def piece_ops(ix, key):
     return out, b
 
 
+PIECE_CASES = {"quiet": ("None", 0), "capture": ("Some", 0), "en-passant": ("Some", 1), "en-passant-without-victim": ("None", 1)}
+
+
+def piece_cases(ix, key):
+    """What move_piece / undo_move_piece does in each of the four (captured?, en passant?) cases, read off by
+    per-case constant propagation (cases.py): the sequence of add_piece / remove_piece calls with their (square,
+    piece) arguments, or 'panic' when every path of the case panics.  Independent of how the case split is spelt
+    (`match (captured, ep)`, nested `if let`, ...)."""
+    from . import cases
+    b = ix.body(key)
+    payload = ("field", ("as", ("arg", "captured_piece"), "Some"), "0")
+    out = {}
+    for name, (cap, ep) in PIECE_CASES.items():
+        capv = cases.option("Some", [payload]) if cap == "Some" else cases.option("None")
+        c = cases.run(ix, b, {"captured_piece": capv, "en_passant": ("const", ep, "bool")})
+        live = [p for p in c.paths if p.end == "return"]
+        if c.overflow or any(p.end not in ("return", "panic", "unreachable") for p in c.paths):
+            out[name] = "undecided"
+        elif not live:
+            out[name] = "panic"
+        elif len(live) > 1:
+            out[name] = "depends-on:%s" % sorted({cd[0] for p in live for cd in p.conds})
+        else:
+            seq = []
+            for e in live[0].events:
+                if e[0] == "call" and e[2] in ("board::Board::add_piece", "board::Board::remove_piece"):
+                    seq.append(("add" if e[2].endswith("add_piece") else "remove", expr_str(e[3][1]), expr_str(e[3][2])))
+            out[name] = seq
+    return out, b
+
+
 def rule_inverse_seq(ctx):
     """undo_move_piece performs, case by case, the reverse of move_piece with add <-> remove on the same
     (square, piece) arguments; unmake_move feeds it the popped record exactly as make_move fed move_piece."""
     ix = ctx.ix
-    mv, mb = piece_ops(ix, MOVE_PIECE)
-    un, ub = piece_ops(ix, UNDO_PIECE)
+    mv, mb = piece_cases(ix, MOVE_PIECE)
+    un, ub = piece_cases(ix, UNDO_PIECE)
     ctx.functions.update([MOVE_PIECE, UNDO_PIECE])
-    ctx.check(set(mv) == set(un), "same-case-split", "move_piece and undo_move_piece split into the same %d cases" % len(mv), mb.where(0),
-              bad_what="the case analyses differ: move_piece %s vs undo_move_piece %s" % (sorted(mv), sorted(un)))
     n = 0
-    for cons in sorted(set(mv) & set(un)):
-        want = [("remove" if op == "add" else "add", sq, pc) for (op, sq, pc) in reversed(mv[cons])]
+    for name in sorted(PIECE_CASES):
+        m, u = mv[name], un[name]
+        if isinstance(m, list):
+            want = [("remove" if op == "add" else "add", sq, pc) for (op, sq, pc) in reversed(m)]
+        else:
+            want = m
         n += 1
-        label = ",".join("%s=%s" % (c.split("(")[-1].strip(")"), v) for c, v in cons) or "always"
-        ctx.check(un[cons] == want, "case:%s" % label, "undo = reverse(move) with add<->remove: %s" % un[cons], ub.where(0),
-                  bad_what="case %s: move_piece does %s but undo_move_piece does %s (expected %s)" % (label, mv[cons], un[cons], want))
+        ctx.check(u == want and m != "undecided" and not str(m).startswith("depends-on"), "case:%s" % name, "undo = reverse(move) with add<->remove: %s" % (u,), ub.where(0),
+                  bad_what="case %s: move_piece does %s but undo_move_piece does %s (expected %s)" % (name, m, u, want))
     ctx.floor("move/undo cases", n, 3)
     # argument passing
     mk, um = ctx.body(MAKE), ctx.body(UNMAKE)
